@@ -13,7 +13,7 @@
 (* (b) the reference the implementation-shaped heap model is checked against (LocalsImpl),    *)
 (* (c) the oracle of the trace judge (LocalsTrace) and the source of the exported behaviours. *)
 (* Transcribed from the documentation of werkzeug.local and the property text, not the code.  *)
-EXTENDS Naturals, Sequences, FiniteSets
+EXTENDS Integers, Sequences, FiniteSets
 
 CONSTANTS Ctxs,    \* context identifiers, 1 is the root context
           Names,   \* attribute names of the Local namespace (strings)
@@ -30,13 +30,43 @@ CONSTANTS Ctxs,    \* context identifiers, 1 is the root context
 \*   2    : object with a field `val` whose __bool__ is `val != 0`  (initially falsy)
 \*   3    : list, initially [7, 7]       7 : list, initially []       8 : dict, initially {}
 \*   5    : the int 0                    6 : the str ""
-\* cont[b] is the object's state: the field `val` (1, 2, 4), the length (3, 7, 8), 0 for 5 and 6.
+\*   9    : the int 3      10 : the str "ab"      11 : the tuple (1, 2)      12 : frozenset({1})
+\* cont[b] is the object's state: the field `val` (1, 2, 4), the length (3, 7, 8), 0 for the
+\* immutable ones (5, 6, 9 .. 12), whose value never changes whatever is done through a proxy.
 KindOf(b) == CASE b \in {1, 4} -> "box" [] b = 2 -> "fbox" [] b \in {3, 7} -> "list"
-               [] b = 8 -> "dict" [] b = 5 -> "int" [] OTHER -> "str"
+               [] b = 8 -> "dict" [] b \in {5, 9} -> "int" [] b \in {6, 10} -> "str"
+               [] b = 11 -> "tuple" [] OTHER -> "fset"
 Init0(b)  == IF b = 3 THEN 2 ELSE 0
+IntVal(b) == IF b = 9 THEN 3 ELSE 0
+FixedSize(b) == CASE b \in {10, 11} -> 2 [] b = 12 -> 1 [] OTHER -> 0
+Immutable(b) == KindOf(b) \in {"int", "str", "tuple", "fset"}
+\* result codes of reads that fail: the exception class
+RTE == 0 - 1      \* RuntimeError (the proxy says it is unbound)
+TYE == 0 - 2      \* TypeError
+IXE == 0 - 3      \* IndexError
+KYE == 0 - 4      \* KeyError
+SizeOf(cont, b) == CASE KindOf(b) \in {"list", "dict"} -> cont[b]
+                     [] KindOf(b) \in {"str", "tuple", "fset"} -> FixedSize(b)
+                     [] OTHER -> TYE                                  \* len() of an int / plain object
 TruthyC(cont, b) == CASE KindOf(b) = "box" -> TRUE
-                      [] KindOf(b) \in {"fbox", "list", "dict"} -> cont[b] # 0
-                      [] OTHER -> FALSE
+                      [] KindOf(b) = "fbox" -> cont[b] # 0
+                      [] KindOf(b) = "int" -> IntVal(b) # 0
+                      [] OTHER -> SizeOf(cont, b) # 0
+\* what Python answers when these are applied to the object itself (the proxy must answer the same,
+\* computed on the object bound in the accessing context):
+GetItemCode(cont, b) ==        \* obj[0]: 1 = an item
+  CASE KindOf(b) \in {"str", "tuple", "list"} -> IF SizeOf(cont, b) > 0 THEN 1 ELSE IXE
+    [] KindOf(b) = "dict" -> KYE
+    [] OTHER -> TYE
+InCodes(cont, b) ==            \* 7 in obj  (0 / 1; the items of a list are not modelled)
+  CASE KindOf(b) \in {"tuple", "fset", "dict"} -> {0}
+    [] KindOf(b) = "list" -> IF cont[b] = 0 THEN {0} ELSE {0, 1}
+    [] OTHER -> {TYE}
+AddCode(cont, b) ==            \* obj + obj: the int, or the length of the concatenation
+  CASE KindOf(b) = "int" -> 2 * IntVal(b)
+    [] KindOf(b) \in {"str", "tuple", "list"} -> 2 * SizeOf(cont, b)
+    [] OTHER -> TYE
+HashCode(b) == IF KindOf(b) \in {"list", "dict"} THEN TYE ELSE 1
 
 TOP    == "@top"                 \* proxy kind: stack() -- the top of the LocalStack
 PKinds == Names \cup {TOP}       \* proxy kinds: ns(name) for each name, and stack()
@@ -44,8 +74,15 @@ NoBox  == 0
 
 NsOps      == {"set", "get", "del", "iter", "release"}
 StackOps   == {"push", "pop", "top", "release_stack"}
-ProxyOps   == {"mkproxy", "proxy_read", "proxy_mutate", "proxy_pop", "proxy_clear"}
-ObjOps     == {"proxy_mutate", "proxy_pop", "proxy_clear"}     \* forwarded to the bound object
+ProxyOps   == {"mkproxy", "proxy_read", "proxy_mutate", "proxy_pop", "proxy_clear",
+               "proxy_iadd", "proxy_isub", "proxy_ior", "proxy_imul"}
+IopOps     == {"proxy_iadd", "proxy_isub", "proxy_ior", "proxy_imul"}   \* name += / -= / |= / *= operand
+ObjOps     == {"proxy_mutate", "proxy_pop", "proxy_clear"} \cup IopOps   \* forwarded to the bound object
+\* operand of an augmented assignment, selected by o.v:  1 -> 1   2 -> "z"   3 -> (7,)
+\* 4 -> frozenset({7})   5 -> [7, 7]   (`*=` always multiplies by 2)
+IopArgs    == 1..5
+SmallIop   == {1, 3}
+IopQuick   == {1, 5}
 ReleaseOps == {"release", "release_stack", "cleanup"}
 KnownOps   == NsOps \cup StackOps \cup ProxyOps \cup {"cleanup", "spawn"}
 ReadOps    == {"get", "iter", "top", "proxy_read"}
@@ -53,8 +90,9 @@ ReadOps    == {"get", "iter", "top", "proxy_read"}
 \* ---- state ------------------------------------------------------------------------------
 \*  alive : contexts that exist                    attrs : per context, name -> box | NoBox
 \*  stack : per context, sequence of boxes         cont  : box -> value of its field `val`
-\*  made  : proxy kinds for which a LocalProxy object exists (a proxy is one global object;
-\*          it is not bound to the context that created it)
+\*  made  : proxy kinds for which a LocalProxy object exists (a proxy is one global object held
+\*          in one Python name; it is not bound to the context that created it, and the name
+\*          keeps holding the proxy whatever is done through it, augmented assignment included)
 InitState(made0) ==
   [alive |-> {1},
    attrs |-> [c \in Ctxs |-> [n \in Names |-> NoBox]],
@@ -93,15 +131,31 @@ Enabled(S, o) ==
 \*   proxy.val = v : plain objects take it; list / dict / int / str have no such attribute
 \*   proxy.pop()   : list -> drops the last item (IndexError when empty); dict.pop() needs a key
 \*   proxy.clear() : list / dict -> empty
+\*   name += x etc. where name is the proxy (`_ProxyIOp`: "the method is wrapped to return the proxy
+\*   instead of the object"): the operator is applied to the bound object, the result is dropped,
+\*   the name stays the proxy.  So an immutable object is unaffected, a list is extended in place,
+\*   and an operand of the wrong type raises what Python raises for the object itself.
+IopExc(kd, op, v) ==           \* "" = no exception
+  CASE op = "proxy_iadd" -> IF \/ (kd = "int" /\ v = 1) \/ (kd = "str" /\ v = 2) \/ (kd = "tuple" /\ v = 3)
+                               \/ (kd = "list" /\ v # 1) THEN "" ELSE "TypeError"
+    [] op = "proxy_isub" -> IF (kd = "int" /\ v = 1) \/ (kd = "fset" /\ v = 4) THEN "" ELSE "TypeError"
+    [] op = "proxy_ior"  -> IF (kd = "int" /\ v = 1) \/ (kd = "fset" /\ v = 4) THEN ""
+                            ELSE IF kd = "dict" /\ v = 2 THEN "ValueError" ELSE "TypeError"
+    [] op = "proxy_imul" -> IF kd \in {"int", "str", "tuple", "list"} THEN "" ELSE "TypeError"
 ObjRet(cont, b, o) ==
   LET kd == KindOf(b) IN
-  CASE o.op = "proxy_mutate" -> IF kd \in {"box", "fbox"} THEN OkR ELSE ExcR("AttributeError")
+  CASE o.op \in IopOps -> IF IopExc(kd, o.op, o.v) = "" THEN OkR ELSE ExcR(IopExc(kd, o.op, o.v))
+    [] o.op = "proxy_mutate" -> IF kd \in {"box", "fbox"} THEN OkR ELSE ExcR("AttributeError")
     [] o.op = "proxy_pop"    -> IF kd = "list" THEN (IF cont[b] > 0 THEN OkR ELSE ExcR("IndexError"))
                                 ELSE IF kd = "dict" THEN ExcR("TypeError") ELSE ExcR("AttributeError")
     [] o.op = "proxy_clear"  -> IF kd \in {"list", "dict"} THEN OkR ELSE ExcR("AttributeError")
 ObjNext(cont, b, o) ==
   LET kd == KindOf(b) IN
-  CASE o.op = "proxy_mutate" -> IF kd \in {"box", "fbox"} THEN [cont EXCEPT ![b] = o.v] ELSE cont
+  CASE o.op = "proxy_iadd" -> IF kd = "list" /\ o.v # 1
+                              THEN [cont EXCEPT ![b] = @ + (IF o.v = 5 THEN 2 ELSE 1)] ELSE cont
+    [] o.op = "proxy_imul" -> IF kd = "list" THEN [cont EXCEPT ![b] = 2 * @] ELSE cont
+    [] o.op \in {"proxy_isub", "proxy_ior"} -> cont
+    [] o.op = "proxy_mutate" -> IF kd \in {"box", "fbox"} THEN [cont EXCEPT ![b] = o.v] ELSE cont
     [] o.op = "proxy_pop"    -> IF kd = "list" /\ cont[b] > 0 THEN [cont EXCEPT ![b] = @ - 1] ELSE cont
     [] o.op = "proxy_clear"  -> IF kd \in {"list", "dict"} THEN [cont EXCEPT ![b] = 0] ELSE cont
 
